@@ -267,6 +267,8 @@ var c10Scenarios = map[string][]string{
 	"three-way":                    {"upd C1 H1", "upd C2 H1", "link W1 H1"},
 	"withdraw-link-update":         {"withdraw W1", "link W1 C2", "upd C2 H1"},
 	"two-withdraws-one-link":       {"withdraw W1", "withdraw W1", "link W1 H2"},
+	// two clients asking for hosts at the same moment (the drivers' host selection is shared state)
+	"two-peer-requests": {"peer C1", "peer C2"},
 	// a host's connection drops while the same host registers again on a new one, and while a
 	// client asks for hosts; afterwards a client asks again
 	"close-vs-rehost":      {"first:host H1 connA", "close connA", "host H1 connB", "then:peer C2"},
